@@ -22,7 +22,11 @@ def struct_case(name, shape, rfields, gfields):
     val='format!("(struct %s)", %s)'%(' '.join('(\\"%s\\" {})'%n for n,t in rfields), ', '.join('Marsh::val(&self.%s)'%n for n,t in rfields))
     lit='format!("{{ %s }}", %s)'%(', '.join('%s = {}'%n for n,t in gfields), ', '.join('Marsh::lit(&self.%s).unwrap()'%n for n,t in gfields))
     srt=sorted(rfields)
-    obs_src='(\\\\r -> %s)'% ' '.join(['cat3 \\"%s=\\" %s ('%(n,obs_f(t,'r.'+n)) for n,t in srt]).rstrip() + ' \\"\\"' + ')'*len(srt)
+    def nest(items):
+        if not items: return '\\"\\"'
+        n,t=items[0]
+        return '(cat3 \\"%s=\\" %s %s)'%(n,obs_f(t,'r.'+n),nest(items[1:]))
+    obs_src='(\\\\r -> %s)'%nest(srt)
     # pattern-matching observer (binds by name through a record pattern)
     obs2_src='(\\\\r -> let { %s } = r in %s)'%(', '.join(n for n,t in rfields), ' '.join(['cat3 \\"%s=\\" %s ('%(n,obs_f(t,n)) for n,t in srt]).rstrip() + ' \\"\\"' + ')'*len(srt))
     obs='format!("%s", %s)'%(''.join('%s={}'%n for n,t in srt), ', '.join('Marsh::obs(&self.%s)'%n for n,t in srt))
@@ -31,6 +35,7 @@ def struct_case(name, shape, rfields, gfields):
     const NAME: &'static str = "%(name)s";
     const SHAPE: &'static str = "%(shape)s";
     const PERMUTED: bool = %(perm)s;
+    const TYPE_COMPAT: bool = %(compat)s;
     fn tcode() -> String { "(struct %(tcf)s)".into() }
     fn gluon_fields() -> String { "%(gf)s".into() }
     fn make(src: &mut Src) -> Vec<Self> { vec![%(name)s { %(mk)s }] }
@@ -40,7 +45,7 @@ def struct_case(name, shape, rfields, gfields):
     fn obs(&self) -> String { %(obs)s }
     fn rebuild_src() -> String { "%(rebuild)s".into() }
 }
-'''%dict(name=name,shape=shape,perm='true' if permuted else 'false',tcf=' '.join('(\\"%s\\" %s)'%(n,tc(t)) for n,t in rfields),gf=','.join(n for n,t in gfields),mk=mk,val=val,lit=lit,obs_src=obs_src,obs2_src=obs2_src,obs=obs,rebuild=rebuild))
+'''%dict(name=name,shape=shape,compat='true' if [t for n,t in rfields]==[t for n,t in gfields] else 'false',perm='true' if permuted else 'false',tcf=' '.join('(\\"%s\\" %s)'%(n,tc(t)) for n,t in rfields),gf=','.join(n for n,t in gfields),mk=mk,val=val,lit=lit,obs_src=obs_src,obs2_src=obs2_src,obs=obs,rebuild=rebuild))
 
 for n in (2,3,4):
     base=SETS[n]
@@ -62,7 +67,7 @@ for p in itertools.permutations(range(3)):
     out.append('#[derive(Clone, Debug, PartialEq, VmType, Pushable, Getable)]\n#[gluon(vm_type = "c11o.%s")]\npub enum %s { U%s, T%s(i64, i64, String), S%s { p: i64, r: String, k: i64 } }\n'%(name,name,name,name,name))
     glu.append('type %s = | U%s | T%s Int Int String | S%s { %s }'%(name,name,name,name,', '.join('%s : %s'%(n,gl_ty(t)) for n,t in gf)))
     types.append(name)
-    d=dict(name=name,perm='true' if list(p)!=[0,1,2] else 'false',
+    d=dict(name=name,compat='true' if [t for n,t in gf]==[t for n,t in ef] else 'false',perm='true' if list(p)!=[0,1,2] else 'false',
       gf=','.join(n for n,t in gf),
       glit=', '.join('%s = {}'%n for n,t in gf), gargs=', '.join('Marsh::lit(%s).unwrap()'%n for n,t in gf),
       grebuild=', '.join('%s = s.%s'%(n,n) for n,t in gf))
@@ -70,6 +75,7 @@ for p in itertools.permutations(range(3)):
     const NAME: &'static str = "%(name)s";
     const SHAPE: &'static str = "enum";
     const PERMUTED: bool = %(perm)s;
+    const TYPE_COMPAT: bool = %(compat)s;
     fn tcode() -> String { "(enum \\"c11o.%(name)s\\" (u) (t i64 i64 string) (s (\\"p\\" i64) (\\"r\\" string) (\\"k\\" i64)))".into() }
     fn gluon_fields() -> String { "%(gf)s".into() }
     fn make(src: &mut Src) -> Vec<Self> { vec![%(name)s::U%(name)s, %(name)s::T%(name)s(src.int(), src.int(), src.string()), %(name)s::S%(name)s { p: src.int(), r: src.string(), k: src.int() }] }
@@ -94,8 +100,8 @@ for p in itertools.permutations(range(3)):
 '''%d)
 
 # nested: a struct holding a permuted struct, a permuted enum and two ints, itself permuted
-nf=[('inner','N3_g201'),('n','i'),('e','E_g120'),('w','i')]
-for p in [(0,1,2,3),(3,2,1,0),(1,3,0,2),(2,0,3,1),(1,0,2,3),(0,1,3,2)]:
+nf=[('inner','N3_g210'),('n','i'),('e','E_g210'),('w','i')]
+for p in [(0,1,2,3),(0,3,2,1),(3,2,1,0),(1,3,0,2),(2,0,3,1),(1,0,2,3),(0,1,3,2)]:
     name='O_g%s'%perm_name(p)
     gf=[nf[i] for i in p]
     def rty(t): return 'i64' if t=='i' else t
@@ -103,7 +109,7 @@ for p in [(0,1,2,3),(3,2,1,0),(1,3,0,2),(2,0,3,1),(1,0,2,3),(0,1,3,2)]:
     out.append('#[derive(Clone, Debug, PartialEq, VmType, Pushable, Getable)]\n#[gluon(vm_type = "c11o.%s")]\npub struct %s { %s }\n'%(name,name,', '.join('pub %s: %s'%(n,rty(t)) for n,t in nf)))
     glu.append('type %s = { %s }'%(name, ', '.join('%s : %s'%(n,gty(t)) for n,t in gf)))
     types.append(name)
-    d=dict(name=name,perm='true' if list(p)!=[0,1,2,3] else 'false',gf=','.join(n for n,t in gf),
+    d=dict(name=name,compat='true' if [t for n,t in gf]==[t for n,t in nf] else 'false',perm='true' if list(p)!=[0,1,2,3] else 'false',gf=','.join(n for n,t in gf),
       glit=', '.join('%s = {}'%n for n,t in gf),
       gargs=', '.join(('Marsh::lit(&self.%s).unwrap()'%n) if t=='i' else ('OrdCase::lit(&self.%s)'%n) for n,t in gf),
       grebuild=', '.join('%s = r.%s'%(n,n) for n,t in gf))
@@ -111,16 +117,17 @@ for p in [(0,1,2,3),(3,2,1,0),(1,3,0,2),(2,0,3,1),(1,0,2,3),(0,1,3,2)]:
     const NAME: &'static str = "%(name)s";
     const SHAPE: &'static str = "nested";
     const PERMUTED: bool = true;
-    fn tcode() -> String { format!("(struct (\\"inner\\" {}) (\\"n\\" i64) (\\"e\\" {}) (\\"w\\" i64))", N3_g201::tcode(), E_g120::tcode()) }
+    const TYPE_COMPAT: bool = %(compat)s;
+    fn tcode() -> String { format!("(struct (\\"inner\\" {}) (\\"n\\" i64) (\\"e\\" {}) (\\"w\\" i64))", N3_g210::tcode(), E_g210::tcode()) }
     fn gluon_fields() -> String { "%(gf)s".into() }
     fn make(src: &mut Src) -> Vec<Self> {
         let mut v = vec![];
-        for e in E_g120::make(src) { v.push(%(name)s { inner: N3_g201::make(src).pop().unwrap(), n: src.int(), e, w: src.int() }); }
+        for e in E_g210::make(src) { v.push(%(name)s { inner: N3_g210::make(src).pop().unwrap(), n: src.int(), e, w: src.int() }); }
         v
     }
     fn val(&self) -> String { format!("(struct (\\"inner\\" {}) (\\"n\\" {}) (\\"e\\" {}) (\\"w\\" {}))", OrdCase::val(&self.inner), Marsh::val(&self.n), OrdCase::val(&self.e), Marsh::val(&self.w)) }
     fn lit(&self) -> String { format!("{{ %(glit)s }}", %(gargs)s) }
-    fn obs_src() -> Vec<String> { vec![format!("(\\\\r -> cat3 \\"e=\\" ({} r.e) (cat3 \\"inner=\\" ({} r.inner) (cat3 \\"n=\\" (prim.show_int r.n) (cat \\"w=\\" (prim.show_int r.w)))))", E_g120::obs_src()[0], N3_g201::obs_src()[0])] }
+    fn obs_src() -> Vec<String> { vec![format!("(\\\\r -> cat3 \\"e=\\" ({} r.e) (cat3 \\"inner=\\" ({} r.inner) (cat3 \\"n=\\" (prim.show_int r.n) (cat \\"w=\\" (prim.show_int r.w)))))", E_g210::obs_src()[0], N3_g210::obs_src()[0])] }
     fn obs(&self) -> String { format!("e={}inner={}n={}w={}", OrdCase::obs(&self.e), OrdCase::obs(&self.inner), Marsh::obs(&self.n), Marsh::obs(&self.w)) }
     fn rebuild_src() -> String { "(\\\\r -> { %(grebuild)s })".into() }
 }
@@ -134,6 +141,7 @@ out.append('''impl OrdCase for TS3 {
     const NAME: &'static str = "TS3";
     const SHAPE: &'static str = "tuple-struct";
     const PERMUTED: bool = false;
+    const TYPE_COMPAT: bool = true;
     fn tcode() -> String { "(tstruct i64 string i64)".into() }
     fn gluon_fields() -> String { "_0,_1,_2".into() }
     fn make(src: &mut Src) -> Vec<Self> { vec![TS3(src.int(), src.string(), src.int())] }
@@ -165,6 +173,9 @@ pub trait OrdCase: Sized + Clone + std::fmt::Debug + PartialEq + Send + Sync + '
     const NAME: &'static str;
     const SHAPE: &'static str;
     const PERMUTED: bool;
+    /// the field TYPES at each position agree between the Rust and the gluon declaration (a swap is then a
+    /// silent wrong value; otherwise typed gluon code reading the pushed record is a type confusion)
+    const TYPE_COMPAT: bool;
     fn tcode() -> String;
     fn gluon_fields() -> String;
     fn make(src: &mut Src) -> Vec<Self>;
